@@ -331,6 +331,19 @@ CLAIMS["C20"]["text"] += (" Translator tie (harness/py2coq_orders.py, fail-close
                           "(that helper's max / min scan is modelled by hand). The FCN agent (log, exp, Gaussian draws) is tied by the differential correspondence only.")
 
 
+def _dict_tie():
+    import translated
+    return translated.dict_tie()
+
+
+CLAIMS["C18"]["ties"] = (_dict_tie,)
+CLAIMS["C18"]["technique"] += " + source-to-Gallina translator tie for json_extends (regenerated and re-proved every run)"
+CLAIMS["C18"]["text"] += (" Translator tie (harness/py2coq_dict.py, fail-closed): pams/utils/json_extends.py is REGENERATED from /repo's source on every run - which key is tested and "
+                          "popped, which dict is searched, the order of the two checks, the filter on the parent's items and which side wins in dict(items, **other) are read from the "
+                          "statements - and coq/translated/DictC18Proofs.v is re-checked against the generated text: the source's loop, turn by turn, is the model's jext (the function "
+                          "the C18 theorems - own keys, then the nearest ancestor defining the key; termination; missing parent; cycles - are about), with fuel entries + 2 never exhausted.")
+
+
 def _index_tie():
     import translated
     return translated.index_tie()
